@@ -96,7 +96,9 @@ fn ortho_point<N: Fld>(p: &OrthoPt) -> Outcome {
             for k in 0..got.len().max(want.len()) {
                 let g = if k < got.len() { got[k] } else { C::new(0.0, 0.0) };
                 let w = if k < want.len() { want[k] } else { 0.0 };
-                let t = if p.fam == 0 || p.fam == 2 { 64.0 * nn * EPS * cmax.max(w.abs()) * if w == 0.0 { 0.0 } else { 1.0 } + 8.0 * nn * EPS * w.abs() } else { 8.0 * nn * EPS * w.abs() };
+                // Legendre comes from a recurrence with cancellation (bound relative to the largest coefficient); the other
+                // families are integer recurrences or, for Laguerre, one closed-form quotient per coefficient (relative bound)
+                let t = if p.fam == 0 { 64.0 * nn * EPS * cmax.max(w.abs()) * if w == 0.0 { 0.0 } else { 1.0 } + 8.0 * nn * EPS * w.abs() } else { 8.0 * nn * EPS * w.abs() };
                 let d = (g - C::new(w, 0.0)).norm();
                 if t > 0.0 {
                     worst = worst.max(d / t);
